@@ -4,11 +4,10 @@ from props import sqlsched_gen as G
 ID = "C22"
 HARNESS_PKG = "c22"
 HARNESS_RUNNER = "c22"
-COQ_TARGETS = ["theories/C22/Corr.vo"]
-COQ_CORR_MODULE = "C23.Model C23.Spec C23.Corr C22.Model C22.Spec C22.Corr"
-COQ_CASE_TYPE = "C22.Corr.case"
-COQ_CHECK = "C22.Corr.check_case"
-COQ_MODEL_OBS = "(fun c => C22.Corr.model_obs (fst c))"
+COQ_TARGETS = ["theories/C22/AsOf.vo"]
+COQ_CORR_MODULE = "C23.Model C23.Spec C23.Corr C23.Staged C23.Corr3 C22.Model C22.Spec C22.Corr C22.AsOf"
+COQ_CASE_TYPE = "C22.AsOf.acase"
+COQ_CHECK = "C22.AsOf.check_any"
 COQ_SHARD = 400
 DESIGN_REF = "§5 C22"
 TECHNIQUE = ("Coq proof over every interleaving of the transaction machine shared with C23 (snapshot at BEGIN, own working table, commit publishes) "
@@ -22,21 +21,88 @@ LEVEL_TEXT = ("Proof (F/M, partial overall): for every interleaving of sessions 
 LEVEL_NOTE = ("Trusted: Coq kernel, Go harness + Python glue. Modelled, not verified: go-mysql-server execution of the statements, session state caching "
               "(dsess.DoltSession.clear / dbStates), one database, one branch, one table (reads of other branches via AS OF / revision databases are outside "
               "this model), true parallelism (statements are issued one at a time).")
-THEOREMS = ["others_invisible", "snapshot_stable", "no_dirty_read", "visible_after_commit_and_begin", "implicit_begin_reads_committed", "oracle_accepts_model"]
+THEOREMS = ["others_invisible", "snapshot_stable", "no_dirty_read", "visible_after_commit_and_begin", "implicit_begin_reads_committed", "oracle_accepts_model",
+            "start_roots_stable", "as_of_head_snapshot_stable"]
 RULE = ("schedules of 8-30 statements over 2-4 sessions (some autocommit) on t(pk,a,b), read-heavy mix (SELECT / SELECT WHERE pk=k 35%); every session "
         "commits at the end; non-trivial = a session reads while another session has committed or written since its snapshot; distinct by schedule content")
-ASSUMPTIONS = ["single database / branch / table; statements issued one at a time"]
-REQUIRED_TAGS = ["read", "read-after-foreign-commit", "read-own-write", "commit-ok", "commit-conflict", "autocommit", "rollback", "begin-in-txn"]
+ASSUMPTIONS = ["single database / branch / table; statements issued one at a time",
+               "revision reads covered: AS OF 'HEAD', AS OF 'main', `db/main`.t and AS OF 'STAGED' inside transactions while other sessions SQL-commit and DOLT_COMMIT; "
+               "AS OF 'HEAD~n' is not modelled (the first commit of the test database has no table)"]
+REQUIRED_TAGS = ["read", "read-after-foreign-commit", "read-own-write", "commit-ok", "commit-conflict", "autocommit", "rollback", "begin-in-txn",
+                 "roots-case", "asof-head-in-txn", "asof-head-in-txn-after-foreign-dolt-commit", "asof-branch-in-txn", "revdb-read-in-txn", "asof-staged-in-txn"]
+
+
+from props import c23 as P23
+
+
+def gen_asof(rng):
+    c = P23.gen_roots(rng)
+    steps = []
+    for st in c["steps"]:
+        steps.append(st)
+        if rng.random() < 0.35:
+            steps.append([rng.randrange(c["nsess"]), rng.choice([12, 12, 12, 13, 14, 15]), 0, 0, 0])
+    c["steps"] = steps
+    return c
+
+
+FIXED_ASOF = [
+    # A reads t AS OF 'HEAD', B writes and dolt-commits on the same branch, A reads AS OF 'HEAD' again in the same transaction
+    {"mode": "roots", "init": [[1, 0, 0]], "nsess": 2, "autos": [],
+     "steps": [[0, 0, 0, 0, 0], [0, 12, 0, 0, 0], [0, 13, 0, 0, 0], [0, 14, 0, 0, 0], [1, 4, 2, 2, 2], [1, 11, 0, 0, 0],
+               [0, 12, 0, 0, 0], [0, 13, 0, 0, 0], [0, 14, 0, 0, 0], [0, 15, 0, 0, 0], [0, 1, 0, 0, 0], [0, 12, 0, 0, 0]]},
+    {"mode": "roots", "init": [[1, 0, 0]], "nsess": 2, "autos": [],
+     "steps": [[0, 5, 1, 0, 1], [0, 12, 0, 0, 0], [1, 5, 1, 1, 2], [1, 11, 0, 0, 0], [0, 12, 0, 0, 0], [0, 14, 0, 0, 0], [0, 11, 0, 0, 0], [0, 12, 0, 0, 0]]},
+]
 
 
 def gen_cases(rng, tier):
-    return G.gen_cases_txn(rng, tier, read_bias=0.30)
+    cases = G.gen_cases_txn(rng, tier, read_bias=0.30)
+    if tier == "quick":
+        cases = cases[:220]
+    cases += [dict(c) for c in FIXED_ASOF]
+    for _ in range(150 if tier == "quick" else 5000):
+        cases.append(gen_asof(rng))
+    return cases
 
 
-coq_case = G.coq_case_txn
+def coq_case(case, out):
+    if case.get("mode") == "roots":
+        return "E3 " + P23.coq_case(case, out)[len("A3 "):]
+    return "E1 " + G.coq_case_txn(case, out)
+
+
+def classify_asof(case, out):
+    o = out.get("obs")
+    if o is None:
+        return ["panic", "roots-case"]
+    t = set(P23.classify3(case, out))
+    start = {}       # session -> head version at transaction start
+    hv = 0
+    for st, s in zip(case["steps"], o["steps"]):
+        i, k = st[0], st[1]
+        if k == G.K_BEGIN:
+            start[i] = hv
+            continue
+        if i not in start and k != G.K_ROLLBACK:
+            start[i] = hv
+        if 12 <= k <= 15 and s["err"] == 0:
+            name = {12: "asof-head-in-txn", 13: "asof-branch-in-txn", 14: "revdb-read-in-txn", 15: "asof-staged-in-txn"}[k]
+            t.add(name)
+            if k == 12 and start.get(i, hv) != hv:
+                t.add("asof-head-in-txn-after-foreign-dolt-commit")
+        if k in (9, 11) and s["err"] == 0:
+            hv += 1
+        if k in (G.K_COMMIT, G.K_ROLLBACK, 9, 11):
+            start.pop(i, None)
+    return sorted(t)
+
+
 
 
 def classify(case, out):
+    if case.get("mode") == "roots":
+        return classify_asof(case, out)
     return G.classify_txn(case, out, reads=True)
 
 
@@ -44,5 +110,18 @@ def nontrivial(case, out):
     return "read-after-foreign-commit" in classify(case, out)
 
 
-shrink_candidates = G.shrink_txn
-neighbours = G.neighbours_txn
+_SHRINK_BUDGET = [40]
+
+
+def shrink_candidates(case):
+    for c in G.shrink_txn(case):
+        if _SHRINK_BUDGET[0] <= 0:
+            return
+        _SHRINK_BUDGET[0] -= 1
+        yield c
+
+
+def neighbours(case, rng):
+    if case.get("mode") == "roots":
+        return [gen_asof(rng) for _ in range(40)]
+    return G.neighbours_txn(case, rng)
